@@ -40,7 +40,11 @@ from collections import Counter
 
 import numpy as np
 
-from phonopy.interface.vasp import check_forces, get_drift_forces
+from phonopy.interface.vasp import (
+    check_forces,
+    get_drift_forces,
+    sort_positions_by_symbols,
+)
 from phonopy.structure.atoms import PhonopyAtoms, atom_data, symbol_map
 
 _re_float = r"[-+]?\d+\.*\d*(?:[Ee][-+]\d+)?"
@@ -252,6 +256,7 @@ def get_abacus_structure(atoms, pps, orbitals=None, abfs=None):
     line.append("ATOMIC_SPECIES")
     elements = list(Counter(atoms.symbols).keys())
     numbers = list(Counter(atoms.symbols).values())
+    perm = sort_positions_by_symbols(atoms.symbols)[3]
 
     for _, elem in enumerate(elements):
         line.append(f"{elem}\t{atom_data[symbol_map[elem]][3]}\t{pps[elem]}")
@@ -287,10 +292,10 @@ def get_abacus_structure(atoms, pps, orbitals=None, abfs=None):
         for j in range(index, index + numbers[i]):
             if atoms.magnetic_moments is not None:
                 line_part = (
-                    " ".join(_list_elem2str(atoms.scaled_positions[j])) + " 1 1 1"
+                    " ".join(_list_elem2str(atoms.scaled_positions[perm[j]])) + " 1 1 1"
                 )
                 # Add the magnetic moments part
-                mag_mom = atoms.magnetic_moments[j]
+                mag_mom = atoms.magnetic_moments[perm[j]]
                 if isinstance(mag_mom, (list, np.ndarray)):
                     if (
                         len(mag_mom) == 3
@@ -302,7 +307,7 @@ def get_abacus_structure(atoms, pps, orbitals=None, abfs=None):
                 line.append(line_part)
             else:
                 line.append(
-                    " ".join(_list_elem2str(atoms.scaled_positions[j])) + " " + "1 1 1"
+                    " ".join(_list_elem2str(atoms.scaled_positions[perm[j]])) + " " + "1 1 1"
                 )
         line.append(empty_line)
         index += numbers[i]
